@@ -8,7 +8,9 @@ export GOFLAGS=-mod=mod GOPROXY=off GOSUMDB=off GOTOOLCHAIN=local GOWORK=off
 V=$(cd "$(dirname "$0")/.." && pwd)
 one() {
   r=$1; id=$(basename $r)
-  d=$(mktemp -d /tmp/siobn-XXXX); mkdir $d/repo $d/verif; rsync -a --exclude .git /repo/ $d/repo/; cp $V/KNOWN_FINDINGS.txt $d/verif/
+  d=$(mktemp -d /tmp/siobn-XXXX) || { echo "$id: no scratch directory (disk full?)"; return; }
+  case "$d" in /tmp/siobn-*) ;; *) echo "$id: no scratch directory"; return;; esac   # never fall through to /repo itself
+  mkdir $d/repo $d/verif; rsync -a --exclude .git /repo/ $d/repo/; cp $V/KNOWN_FINDINGS.txt $d/verif/
   (cd $d/repo && git init -q . && git apply $r/patch.diff) 2>/dev/null || { echo "$id: patch does not apply (repo moved on)"; rm -rf $d; return; }
   (cd $d/repo && go build ./...) >/dev/null 2>&1 || { echo "$id: does not build"; rm -rf $d; return; }
   $V/bin/sioverif checkall --repo $d/repo --verif $d/verif > $d/out 2>&1; rc=$?
